@@ -1,0 +1,90 @@
+//go:build verif
+
+package bill
+
+// Contracts for the goblvc verifier (see /verif/DESIGN.md). Comments only.
+//
+// ---- C01: decimal schedule of the document calculation
+//
+// At this level the rounding function and the power table are opaque: the conditions only
+// need that the code and the specification apply the same operations to the same operands
+// (their meaning is proved once, in package num).
+//@ opaque-default rha pow10
+//
+// matchS: raise a to b's precision if b has more decimals (lossless); addS / subS: add or
+// subtract b brought to a's precision (half away from zero when b has more decimals)
+//@ spec matchS(a num.Amount, b num.Amount) num.Amount = ite(b.exp > a.exp, num.rescaleS(a, b.exp), a)
+// (addS, subS, pctOf are defined with the tax contracts; spec names are global)
+//@ pred linesOK(lines []*Line) bool = forall i int :: 0 <= i && i < len(lines) ==> lines[i] != nil
+//
+// the document sum is the exact sum of the line totals: the accumulator is raised to each
+// addend's precision before adding, so nothing is rounded away
+//@ rec sumLineTotals(lines []*Line, k int, zero num.Amount) num.Amount = ite(k <= 0, zero, ite(lines[k-1].Total == nil, sumLineTotals(lines, k-1, zero), addS(matchS(sumLineTotals(lines, k-1, zero), *lines[k-1].Total), *lines[k-1].Total)))
+//
+//@ func calculateLineSum(lines, cur) (r)
+//@   requires currency.defined(cur) && linesOK(lines)
+//@   ensures r == sumLineTotals(lines, len(lines), num.Amount(0, currency.subunits(cur)))
+//@   loop 1 invariant sum == sumLineTotals(lines, idx, num.Amount(0, currency.subunits(cur)))
+//
+// percentage of an amount: exact product rounded half away from zero at the amount's precision
+//@ spec mulS(a num.Amount, b num.Amount) num.Amount = num.Amount(rha(a.value * b.value, pow10(b.exp)), a.exp)
+//
+// line discounts: a percentage discount is the percentage of the line sum, or of its own
+// base raised to currency+2 decimals and rule-rounded; every amount is raised to the
+// currency's decimals; the total loses each amount in turn
+//@ pred discBase(d *LineDiscount, sum num.Amount, sub int, rr cbc.Key) num.Amount = ite(d.Base != nil, tax.applyRR(rr, tax.upS(tax.upS(*d.Base, sub), sub + 2), sub), sum)
+//@ pred discAmt(d *LineDiscount, sum num.Amount, sub int, rr cbc.Key) num.Amount = tax.upS(ite(d.Percent != nil && d.Percent.amount.value != 0, pctOf(*d.Percent, discBase(d, sum, sub, rr)), d.Amount), sub)
+//@ rec foldDisc(ds []*LineDiscount, k int, t num.Amount, sum num.Amount, sub int, rr cbc.Key) num.Amount = ite(k <= 0, t, subS(foldDisc(ds, k - 1, t, sum, sub, rr), discAmt(ds[k-1], sum, sub, rr)))
+//@ pred discsOK(ds []*LineDiscount) bool = (forall i int :: 0 <= i && i < len(ds) ==> ds[i] != nil) && (forall i int, j int :: 0 <= i && i < j && j < len(ds) ==> ds[i] != ds[j])
+//
+//@ func calculateLineDiscounts(discounts, sum, total, cur, rr) (r)
+//@   requires currency.defined(cur) && discsOK(discounts)
+//@   modifies LineDiscount.Amount, LineDiscount.Base
+//@   footprint discounts
+//@   ensures [total] r == old(foldDisc(discounts, len(discounts), total, sum, currency.subunits(cur), rr))
+//@   ensures [amounts] forall i int :: 0 <= i && i < len(discounts) ==> discounts[i].Amount == old(discAmt(discounts[i], sum, currency.subunits(cur), rr))
+//@   loop 1 invariant total == old(foldDisc(discounts, idx, total, sum, currency.subunits(cur), rr))
+//@   loop 1 invariant forall i int :: 0 <= i && i < idx ==> discounts[i].Amount == old(discAmt(discounts[i], sum, currency.subunits(cur), rr))
+//@   loop 1 invariant forall i int :: idx <= i && i < len(discounts) ==> discounts[i].Amount == old(discounts[i].Amount) && discounts[i].Base == old(discounts[i].Base)
+//
+// line charges: as discounts, plus the rate-times-quantity form, which wins when present
+//@ pred chargeBase(c *LineCharge, sum num.Amount, sub int, rr cbc.Key) num.Amount = ite(c.Base != nil, tax.applyRR(rr, tax.upS(tax.upS(*c.Base, sub), sub + 2), sub), sum)
+//@ pred chargeAmt(c *LineCharge, quantity num.Amount, sum num.Amount, sub int, rr cbc.Key) num.Amount = tax.upS(ite(c.Rate != nil, mulS(*c.Rate, ite(c.Quantity != nil, *c.Quantity, quantity)), ite(c.Percent != nil && c.Percent.amount.value != 0, pctOf(*c.Percent, chargeBase(c, sum, sub, rr)), c.Amount)), sub)
+//@ rec foldCharge(cs []*LineCharge, k int, t num.Amount, quantity num.Amount, sum num.Amount, sub int, rr cbc.Key) num.Amount = ite(k <= 0, t, addS(foldCharge(cs, k - 1, t, quantity, sum, sub, rr), chargeAmt(cs[k-1], quantity, sum, sub, rr)))
+//@ pred chargesOK(cs []*LineCharge) bool = (forall i int :: 0 <= i && i < len(cs) ==> cs[i] != nil) && (forall i int, j int :: 0 <= i && i < j && j < len(cs) ==> cs[i] != cs[j])
+//
+//@ func calculateLineCharges(charges, quantity, sum, total, cur, rr) (r)
+//@   requires currency.defined(cur) && chargesOK(charges)
+//@   modifies LineCharge.Amount, LineCharge.Base
+//@   footprint charges
+//@   ensures [total] r == old(foldCharge(charges, len(charges), total, quantity, sum, currency.subunits(cur), rr))
+//@   ensures [amounts] forall i int :: 0 <= i && i < len(charges) ==> charges[i].Amount == old(chargeAmt(charges[i], quantity, sum, currency.subunits(cur), rr))
+//@   loop 1 invariant total == old(foldCharge(charges, idx, total, quantity, sum, currency.subunits(cur), rr))
+//@   loop 1 invariant forall i int :: 0 <= i && i < idx ==> charges[i].Amount == old(chargeAmt(charges[i], quantity, sum, currency.subunits(cur), rr))
+//@   loop 1 invariant forall i int :: idx <= i && i < len(charges) ==> charges[i].Amount == old(charges[i].Amount) && charges[i].Base == old(charges[i].Base)
+//
+// item price: brought to the document currency; for an item already priced in it, the price is
+// only raised to the currency's decimals (other-currency items go through alternative prices or
+// an exchange rate: only "success leaves a price" is stated for them here)
+//@ func calculateLineItemPrice(item, cur, rates) (err)
+//@   requires item != nil && item.Price != nil && currency.defined(cur)
+//@   requires item.Currency == "" || item.Currency == cur
+//@   modifies org.Item.Price, org.Item.Currency, org.Item.AltPrices
+//@   footprint item
+//@   ensures [same] err == nil && item.Price != nil && fresh(item.Price) && *item.Price == old(tax.upS(*item.Price, currency.subunits(cur))) && item.Currency == old(item.Currency)
+//
+// line: the price is raised to the working precision (currency decimals, +2 under the
+// precise rule), multiplied by the quantity with one rounding, rule-rounded; the total is the
+// sum less the discounts plus the charges. Stated for lines without breakdown/substitution
+// whose item is priced in the document currency.
+//@ spec workExp(rr cbc.Key, sub int) int = ite(rr == "precise", sub + 2, sub)
+//@ pred lineSumS(l *Line, price num.Amount, sub int, rr cbc.Key) num.Amount = tax.applyRR(rr, mulS(tax.upS(price, workExp(rr, sub)), l.Quantity), sub)
+//
+//@ func calculateLine(l, cur, rates, rr) (err)
+//@   requires l != nil && currency.defined(cur) && discsOK(l.Discounts) && chargesOK(l.Charges)
+//@   requires len(l.Substituted) == 0 && len(l.Breakdown) == 0
+//@   requires l.Item != nil ==> l.Item.Price != nil ==> l.Item.Currency == "" || l.Item.Currency == cur
+//@   modifies *
+//@   ensures [sum] old(l.Item) != nil && old(l.Item.Price) != nil ==> err == nil && l.Sum != nil && *l.Sum == old(lineSumS(l, tax.upS(*l.Item.Price, currency.subunits(cur)), currency.subunits(cur), rr))
+//@   ensures [price] old(l.Item) != nil && old(l.Item.Price) != nil ==> l.Item.Price != nil && *l.Item.Price == old(tax.upS(*l.Item.Price, currency.subunits(cur)))
+//@   ensures [noprice] old(l.Item) != nil && old(l.Item.Price) == nil ==> err == nil && l.Sum == nil && l.Total == nil
